@@ -21,7 +21,18 @@ Oracle (independent of Lean and of the harness's tables)
     probability < 1e-30; re-evaluating a stored action after further forward passes gives the value
     of the immediate evaluation with the same parameters — on the actor, through
     `PPO.evaluate_actions`, and on the exact tensors `PPO.learn` / `IPPO.learn` hand to
-    `action_log_prob`.
+    `action_log_prob`.  The entropies reported by a RE-evaluation (`StochasticActor.action_entropy`, second value of
+    `PPO.evaluate_actions`) are held to the same closed forms, one per row.
+
+Constructor options (suite block `option_sweep_cases` + the `common_fields` of the random blocks)
+    Every distribution option of the constructors — `squash_output` (StochasticActor / EvolvableDistribution / PPO net_config),
+    `action_std_init` (StochasticActor / EvolvableDistribution / PPO / IPPO) — is set to non-default values on EVERY
+    action-space kind (Box, Discrete, MultiDiscrete, MultiBinary): on the actor, on an `EvolvableDistribution` built
+    directly around an MLP (`via: dist`), through PPO get_action -> evaluate_actions, PPO.learn, IPPO get_action / learn
+    (IPPO: action_std_init only, its critic constructor refuses squash_output).  The oracle above applies unchanged
+    (tanh squashing and a log-std exist only for Gaussian policies, so for the other kinds the distribution is the plain
+    categorical / Bernoulli one), and in addition an option that must be inert for the kind has to leave actions,
+    log-probs, entropies and re-evaluations identical to those of the identically seeded case without it (`twin_problems`).
 
 Source translation (`pre_gate`, before the Lean gate): `py2lean_dist.py` executes `agilerl/networks/distributions.py`
     and `StochasticActor.{__init__, forward, action_log_prob, action_entropy, scale_action}` of the tree under test
@@ -622,13 +633,72 @@ def oracle_row(spec, row, problems: list, tag=""):
             problems.append(f"{tag}re-evaluating the stored action {np.asarray(row['action']).tolist()} after further forward "
                             f"passes gives {re['lp']!r}; its log-probability under the (unchanged) policy is {lp_t!r}"
                             + (f" and was reported as {row['lp']!r} when it was sampled" if row.get("lp") is not None else ""))
+        if re.get("ent") is not None and ent_t is not None and not close(re["ent"], ent_t, 1e-4):
+            problems.append(f"{tag}re-evaluation reports entropy {re['ent']!r} but the distribution of that state has entropy {ent_t!r}")
     return lp_t
 
 
+def support_first(spec, raw, mask, actions, tag="") -> list[str]:
+    """first clause of the statement, looked at before the returned actions are re-used as stored actions: every returned
+    action of a Discrete / MultiDiscrete / MultiBinary policy lies in the support (rows without any legal action are skipped)"""
+    if spec["kind"] == "box":
+        return []
+    acts = np.asarray(actions)
+    acts = acts.reshape(acts.shape[0], -1) if acts.ndim else acts.reshape(1, -1)
+    for b in range(acts.shape[0]):
+        mb = None if mask is None else np.asarray(mask[b]).astype(int).tolist()
+        if dead_row(spec, mb):
+            continue
+        bad = true_logprob_entropy(spec, False, raw[b], mb, None, acts[b])[2]
+        if bad:
+            return [f"{tag}row {b}: action outside the support: {bad}"]
+    return []
+
+
 # ----------------------------------------------------------------------------- suite: the actor directly
+class BareHead:
+    """`EvolvableDistribution` constructed directly around a plain `EvolvableMLP` (what a user-defined policy network does),
+    presented with the few entry points of StochasticActor the actor suite uses.  No encoder, no rescaling to the Box
+    bounds (that lives in StochasticActor): generated with unit bounds only, where rescaling is the identity."""
+
+    def __init__(self, head):
+        self.head_net = head
+
+    def extract_features(self, obs):
+        return obs
+
+    def __call__(self, obs, action_mask=None):
+        return self.head_net.forward(obs, action_mask)
+
+    def action_log_prob(self, action):
+        return self.head_net.log_prob(action)
+
+    def action_entropy(self):
+        return self.head_net.entropy()
+
+    def eval(self):
+        self.head_net.eval()
+
+    def train(self):
+        self.head_net.train()
+
+
 def build_actor(case):
     from agilerl.networks.actors import StochasticActor
     agents.seed_all(case["seed"])
+    if case.get("via") == "dist":
+        from agilerl.modules.mlp import EvolvableMLP
+        from agilerl.networks.distributions import EvolvableDistribution
+        if case.get("history") or not unit_bounds({"d": 1, **case["spec"]}):
+            raise InfraError("via=dist cases have no history and unit bounds")
+        space = space_of(case["spec"])
+        mlp = EvolvableMLP(num_inputs=OBS_DIM, num_outputs=flat_dim(case["spec"]), hidden_size=[8], output_activation=None,
+                           min_mlp_nodes=8, device="cpu")
+        actor = BareHead(EvolvableDistribution(space, mlp, action_std_init=float(case.get("std_init", 0.0)),
+                                               squash_output=bool(case.get("squash", False)), device="cpu"))
+        tune(actor, case)
+        actor.eval() if case.get("mode") == "eval" else actor.train()
+        return actor
     actor = StochasticActor(obs_space(), space_of(case["spec"]), encoder_config={"hidden_size": [8]},
                             head_config={"hidden_size": [8]}, latent_dim=8,
                             action_std_init=float(case.get("std_init", 0.0)),
@@ -657,6 +727,9 @@ def run_actor(case):
         torch.manual_seed(case["seed"] + 1)
         head_a, lp, ent = actor.head_net(actor.extract_features(obs), mask)      # what PPO calls (forward_head)
         params, u = dist_params(actor, spec), cached_draw(actor)
+        problems += support_first(spec, raw, mask, head_a.numpy())
+        if problems:
+            return rows, problems
         lp_now = actor.action_log_prob(head_a)
         torch.manual_seed(case["seed"] + 1)
         full_a, lp_full, _ = actor(obs, action_mask=mask)                          # StochasticActor.forward
@@ -672,6 +745,7 @@ def run_actor(case):
         actor(obs, action_mask=mask)                                               # the pass evaluate_actions makes
         u2 = cached_draw(actor)
         lp_re = actor.action_log_prob(stored)
+        ent_re = actor.action_entropy()                                            # entropy of the distribution of that pass
         tail = tail_actions(spec, squash, raw, mask, log_std_of(actor), case["seed"])
         lp_tail = actor.action_log_prob(torch.as_tensor(tail))
         lp_re_full = None
@@ -711,6 +785,12 @@ def run_actor(case):
     if tuple(lp_full.shape) != (B,):
         problems.append(f"StochasticActor.forward: log_prob has shape {tuple(lp_full.shape)} for a batch of {B}")
         return rows, problems
+    if squash:
+        if ent_re is not None:
+            problems.append("squash_output=True on a Box policy but action_entropy() reports a closed-form entropy as an unsquashed Gaussian would")
+    elif ent_re is None or tuple(ent_re.shape) != (B,):
+        problems.append(f"action_entropy() returned {None if ent_re is None else tuple(ent_re.shape)} for a batch of {B} (one entropy per row expected)")
+        return rows, problems
     fwd_vs_head = None
     if not np.allclose(lp_full.numpy(), lp.numpy(), atol=1e-5, rtol=1e-5):
         b0 = int(np.argmax(np.abs(lp_full.numpy() - lp.numpy())))
@@ -721,6 +801,8 @@ def run_actor(case):
                "action": np.asarray(head_a[b]).reshape(-1).tolist(), "lp": float(lp[b]),
                "ent": None if ent is None else float(ent[b]), "squash": squash,
                "re": {"lp": float(lp_re[b]), "u2": None if (u2 is None or not squash) else u2[b].tolist()}}
+        if not squash:
+            row["re"]["ent"] = float(ent_re[b])
         if spec["kind"] == "box":
             row.update(mu=raw[b].tolist(), log_std=ls.tolist(), u=None if u is None else u[b].tolist())
             if params is not None and not (np.array_equal(params["loc"][b], raw[b])
@@ -791,7 +873,7 @@ def run_draws(case, n_draws: int):
 # ----------------------------------------------------------------------------- suite: PPO
 def build_ppo(case):
     from agilerl.algorithms import PPO
-    squash = bool(case.get("squash", False)) and case["spec"]["kind"] == "box"
+    squash = bool(case.get("squash", False))          # as requested: for a non-Box space the flag must be inert
     agents.seed_all(case["seed"])
     ag = PPO(obs_space(), space_of(case["spec"]), net_config=net_config(squash),
              action_std_init=float(case.get("std_init", 0.0)), batch_size=int(case.get("batch_size", 8)),
@@ -817,6 +899,9 @@ def run_ppo(case):
     act, lp, ent, _v = ag.get_action(obs, action_mask=mask)
     params, u = dist_params(ag.actor, spec), cached_draw(ag.actor)
     act = np.asarray(act)
+    problems += support_first(spec, raw, mask, act, "PPO.get_action: ")
+    if problems:
+        return rows, problems
     lp, ent = np.asarray(lp, dtype=np.float64), np.asarray(ent, dtype=np.float64)
     if lp.shape != (B,):
         problems.append(f"PPO.get_action: log_prob has shape {lp.shape} for a batch of {B}")
@@ -834,6 +919,16 @@ def run_ppo(case):
         re_lp = re_lp.numpy().astype(np.float64)
         if re_lp.shape != (B,):
             problems.append(f"PPO.evaluate_actions: log_prob has shape {re_lp.shape} for {B} stored actions")
+            return rows, problems
+        # the entropy evaluate_actions reports: per row that of the distribution (closed form), or the documented
+        # stand-in -mean(log_prob) when a Gaussian is squashed
+        re_ent = np.asarray(re_ent.numpy(), dtype=np.float64)
+        if squash:
+            if not close(float(np.mean(re_ent)), -float(np.mean(re_lp)), 1e-5):
+                problems.append(f"PPO.evaluate_actions with squashing: entropy {re_ent.tolist()} is not -mean(log_prob) = {-float(np.mean(re_lp))}")
+            re_ent = None
+        elif re_ent.shape != (B,):
+            problems.append(f"PPO.evaluate_actions: entropy has shape {re_ent.shape} for {B} stored actions (one entropy per row expected)")
             return rows, problems
         tail = tail_actions(spec, squash, raw, None, log_std_of(ag.actor), case["seed"])
         torch.manual_seed(case["seed"] + 4)
@@ -861,6 +956,8 @@ def run_ppo(case):
                "action": a2[b].tolist(), "lp": float(lp[b]), "ent": ent_rows[b], "squash": squash}
         if re_lp is not None:
             row["re"] = {"lp": float(re_lp[b]), "u2": None if (u2 is None or not squash) else u2[b].tolist()}
+            if re_ent is not None:
+                row["re"]["ent"] = float(re_ent[b])
             row["tail"] = {"action": np.asarray(tail[b]).reshape(-1).tolist(), "lp": float(tail_lp[b])}
         if spec["kind"] == "box":
             row.update(mu=raw[b].tolist(), log_std=ls.tolist(), u=None if u is None else u[b].tolist())
@@ -1037,6 +1134,107 @@ def run_learn(case):
     return evaluated, problems
 
 
+# ----------------------------------------------------------------------------- options that must be inert for a space kind
+def case_specs(case):
+    return list(case["specs"]) if "specs" in case else [case["spec"]]
+
+
+def inert_options(case) -> list[str]:
+    """distribution options of the constructors (StochasticActor / PPO / IPPO: `squash_output`, `action_std_init`) that are
+    set to a non-default value although the action space has no Gaussian: tanh squashing and the log-std exist only for
+    Box policies, so such an option must change nothing for Discrete / MultiDiscrete / MultiBinary"""
+    kinds = sorted({sp["kind"] for sp in case_specs(case) if sp["kind"] != "box"})
+    if not kinds:
+        return []
+    out = []
+    if bool(case.get("squash", False)):
+        out.append("squash_output=True")
+    if float(case.get("std_init", 0.0) or 0.0) != 0.0:
+        out.append(f"action_std_init={float(case['std_init'])}")
+    return [" and ".join(out) + f" on a {'/'.join(kinds)} action space"] if out else []
+
+
+def twin_case(case):
+    """the same case (same seeds, same history) with the options of `inert_options` at their defaults.  Groups with a
+    Box space (IPPO with mixed spaces: one action_std_init for all agents) are not compared: there the option is live."""
+    t = json.loads(json.dumps(case_key(case)))
+    if all(sp["kind"] != "box" for sp in case_specs(case)):
+        t.pop("squash", None)
+    t["std_init"] = 0.0
+    return t
+
+
+def plain_groups(case):
+    """[(label, spec, rows)] of a case as the suites' runners return them, plus the runner's problems"""
+    suite = case["suite"]
+    if suite == "actor":
+        rows, p = run_actor(case)
+        return [("", case["spec"], rows)], p
+    if suite == "ppo":
+        rows, p = run_ppo(case)
+        return [("PPO ", case["spec"], rows)], p
+    if suite == "ippo":
+        out, p = run_ippo(case)
+        return [(f"IPPO {a} ", spec, rows) for a, (spec, rows) in out.items()], p
+    if suite == "learn":
+        ev, p = run_learn(case)
+        return [(f"{case['algo']}.learn/{name} call {ci} ", spec, rows) for name, ci, spec, rows in ev], p
+    raise InfraError(f"unknown suite {suite}")
+
+
+def same_num(x, y) -> bool:
+    if x is None or y is None:
+        return x is None and y is None
+    x, y = float(x), float(y)
+    if math.isnan(x) or math.isnan(y):
+        return False
+    return x == y or close(x, y, 1e-6)
+
+
+def twin_problems(case, groups) -> list[str]:
+    """an option that must be inert leaves actions, log-probs and entropies identical to those of an identically seeded
+    network / agent built without it (same weights, same draws, same history)"""
+    opts = inert_options(case)
+    if not opts:
+        return []
+    what = " and ".join(opts)
+    try:
+        tgroups, tp = plain_groups(twin_case(case))
+    except Exception as e:
+        return [f"the same case without {what} raised {type(e).__name__}: {e}"]
+    if tp:
+        return []                                  # the default configuration is judged by its own cases
+    problems = []
+    if [g[0] for g in groups] != [g[0] for g in tgroups]:
+        return [f"with {what} the case produces {[g[0].strip() for g in groups]} but without it {[g[0].strip() for g in tgroups]}"]
+    for (label, spec, rows), (_l, _s, trows) in zip(groups, tgroups):
+        if spec["kind"] == "box":
+            continue
+        if len(rows) != len(trows):
+            problems.append(f"{label}{len(rows)} rows with {what}, {len(trows)} without")
+            continue
+        for b, (r, t) in enumerate(zip(rows, trows)):
+            for key, name in (("action", "action"), ("full_action", "action returned by StochasticActor.forward")):
+                if key in r and not np.array_equal(np.asarray(r[key], dtype=np.float64), np.asarray(t.get(key), dtype=np.float64)):
+                    problems.append(f"{label}row {b}: {what} must have no effect, but the {name} is {r[key]} with it and "
+                                    f"{t.get(key)} without (same seed, same weights)")
+                    break
+            for key, sub, name in (("lp", None, "log_prob"), ("ent", None, "entropy"), ("lp_full", None, "log_prob of StochasticActor.forward"),
+                                   ("re", "lp", "re-evaluated log_prob of the stored action"), ("re", "ent", "entropy reported by the re-evaluation"),
+                                   ("tail", "lp", "log_prob of an unlikely stored action")):
+                if key not in r:
+                    continue
+                x, y = r.get(key), t.get(key)
+                if sub is not None:
+                    x, y = (x or {}).get(sub), (y or {}).get(sub)
+                if not same_num(x, y):
+                    problems.append(f"{label}row {b}: {what} must have no effect, but the {name} is {x!r} with it and {y!r} without "
+                                    f"(same seed, same weights)")
+            if problems:
+                return problems[:4]
+    return problems
+
+
 # ----------------------------------------------------------------------------- evaluate one case
 def tail_row(L: Lines, spec, row, problems, tag):
     """the same distribution, an unlikely stored action: model line + float64 oracle on its re-evaluation"""
@@ -1079,7 +1277,7 @@ def eval_case(chk: Check, case, n_draws: int = 0):
                     problems.append(row["late2"])
             if n_draws:
                 problems += run_draws(case, n_draws)
-            groups = [(spec, rows)]
+            groups, labels = [(spec, rows)], [""]
         elif suite == "ppo":
             rows, problems = run_ppo(case)
             spec = case["spec"]
@@ -1093,10 +1291,10 @@ def eval_case(chk: Check, case, n_draws: int = 0):
             if rows and "ppoent" in rows[0]:
                 e, lps = rows[0]["ppoent"]
                 L.add(f"ppoent | {frs(lps)}", expect_val(e, "PPO stand-in entropy with squashing"))
-            groups = [(spec, rows)]
+            groups, labels = [(spec, rows)], ["PPO "]
         elif suite == "ippo":
             out, problems = run_ippo(case)
-            groups = []
+            groups, labels = [], [f"IPPO {a} " for a in out]
             for a, (spec, rows) in out.items():
                 for b, row in enumerate(rows):
                     if dead_row(spec, row.get("mask")):
@@ -1107,7 +1305,7 @@ def eval_case(chk: Check, case, n_draws: int = 0):
                 groups.append((spec, rows))
         elif suite == "learn":
             evaluated, problems = run_learn(case)
-            groups = []
+            groups, labels = [], [f"{case['algo']}.learn/{name} call {ci} " for name, ci, _s, _r in evaluated]
             for name, ci, spec, rows in evaluated:
                 for b, row in enumerate(rows):
                     row_lines(L, spec, row, f"{case['algo']}.learn/{name} call {ci} row {b}: ")
@@ -1115,10 +1313,17 @@ def eval_case(chk: Check, case, n_draws: int = 0):
                 groups.append((spec, rows))
         else:
             raise InfraError(f"unknown suite {suite}")
+        inert = inert_options(case)
+        if inert:
+            tags.append("inert-option")
+            problems = [f"{p} [configuration: {' and '.join(inert)}, where the option must have no effect]" for p in problems]
+            problems += twin_problems(case, [(lb, sp, rw) for lb, (sp, rw) in zip(labels, groups)])
     except InfraError:
         raise
     except Exception as e:  # the implementation raised on a legal configuration
-        return [], [f"implementation raised, or returned objects of an unexpected shape, on a legal configuration: {type(e).__name__}: {e}"], tags, 0
+        inert = inert_options(case)
+        return [], [f"implementation raised, or returned objects of an unexpected shape, on a legal configuration: {type(e).__name__}: {e}"
+                    + (f" [configuration: {' and '.join(inert)}, where the option must have no effect]" if inert else "")], tags, 0
     for op in case.get("history") or []:
         tags.append(f"history-{op[0]}")
     for spec, rows in groups:
@@ -1283,7 +1488,64 @@ def common_fields(rng, spec):
                 spec["low"], spec["high"] = 0.0, 10.0
             elif r < 0.55:
                 spec["low"], spec["high"] = [-2.0, 0.0, -1.0, -0.5, -3.0][:d], [2.0, 3.0, 1.0, 0.25, 5.0][:d]
+    else:
+        # the Gaussian-only options on a space without a Gaussian (drawn from the case seed so that the main stream of
+        # random choices is the one earlier rounds used): they must be inert there
+        import random
+        r2 = random.Random(f["seed"] ^ 0x16D15)
+        if r2.random() < 0.3:
+            f["squash"] = True
+        if r2.random() < 0.3:
+            f["std_init"] = r2.choice(STD_INITS)
     return f
+
+
+STD_INITS = [0.5, 1.0, 0.05, 2.5]      # non-default action_std_init values (PPO / IPPO require >= 0)
+
+
+def option_sweep_cases(rng, quick: bool):
+    """every distribution option of the constructors set to a non-default value on EVERY action-space kind, directly on
+    the actor, through PPO.get_action -> evaluate_actions, through PPO.learn, and (action_std_init only: IPPO's critic
+    constructor refuses squash_output in net_config) through IPPO"""
+    cases = []
+    small = {"discrete": {"kind": "discrete", "n": 4}, "multidiscrete": {"kind": "multidiscrete", "nvec": [3, 2, 4]},
+             "multibinary": {"kind": "multibinary", "n": 3}, "box": {"kind": "box", "d": 2}}
+    combos = [{"squash": True}, {"std_init": 1.0}, {"squash": True, "std_init": 0.5}]
+    for kind in ("multidiscrete", "multibinary", "discrete", "box"):
+        for ci, opts in enumerate(combos):
+            for suite in ("actor", "ppo"):
+                spec = json.loads(json.dumps(small[kind] if rng.random() < 0.5 else random_spec(rng, (kind,), big=False)))
+                if kind == "box" and opts.get("squash") and rng.random() < 0.5:
+                    spec["low"], spec["high"] = -2.0, 2.0
+                masked = kind != "box" and ci == 0 and suite == "actor"
+                c = {"suite": suite, "spec": spec, "rows": gen_rows(rng, spec, masked, 3), "seed": rng.randrange(1 << 30),
+                     "scale": rng.choice([2.0, 4.0]), **opts}
+                if suite == "actor":
+                    c["mode"] = rng.choice(["train", "eval"])
+                    if ci == 2:
+                        c["history"] = [[rng.choice(["clone", "sd"])], ["mut", rng.randrange(N_METHODS)]]
+                elif ci == 2:
+                    c["history"] = [["clone"], ["amut", rng.randrange(1 << 20), rng.randrange(N_METHODS)]]
+                cases.append(c)
+        for opts in combos[:2]:                               # EvolvableDistribution constructed directly
+            spec = json.loads(json.dumps(small[kind]))
+            cases.append({"suite": "actor", "via": "dist", "spec": spec, "rows": gen_rows(rng, spec, kind != "box" and "squash" in opts, 3),
+                          "seed": rng.randrange(1 << 30), "scale": 4.0, "mode": rng.choice(["train", "eval"]), **opts})
+        if kind != "box":
+            spec = json.loads(json.dumps(small[kind]))
+            cases.append({"suite": "learn", "algo": "PPO", "spec": spec, "rows": [], "seed": rng.randrange(1 << 30), "scale": 2.0,
+                          **combos[rng.randrange(3) if quick else 2]})
+            if not quick:
+                cases.append({"suite": "learn", "algo": "PPO", "spec": spec, "rows": [], "seed": rng.randrange(1 << 30), "scale": 2.0,
+                              **combos[0]})
+    for s0, s1 in ((small["multidiscrete"], small["discrete"]), (small["multibinary"], small["box"])):
+        ids = ["agent_0", "agent_1", "other_0"]
+        cases.append({"suite": "ippo", "agent_ids": ids, "specs": [s0, s0, s1], "rows": [[i, None] for i in rng.sample(range(POOL), 3)],
+                      "seed": rng.randrange(1 << 30), "scale": 4.0, "std_init": rng.choice(STD_INITS)})
+    cases.append({"suite": "learn", "algo": "IPPO", "agent_ids": ["agent_0", "agent_1", "other_0"],
+                  "specs": [small["multidiscrete"], small["multidiscrete"], small["multibinary"]], "rows": [],
+                  "seed": rng.randrange(1 << 30), "scale": 2.0, "std_init": 1.0})
+    return cases
 
 
 def exhaustive_mask_cases(rng):
@@ -1344,6 +1606,9 @@ def gen_cases(chk: Check):
                       "specs": [{"kind": "box", "d": 2}, {"kind": "box", "d": 2}, {"kind": "box", "d": 3}],
                       "rows": [[i, None] for i in rng.sample(range(POOL), 2)], "seed": rng.randrange(1 << 30), "scale": 2.0,
                       "std_init": 0.0, "lr": 0.02, "history": [["get_action"], change]})
+    # own stream (derived from the check seed): the main stream of random choices stays the one earlier rounds used
+    opt_rng = __import__("random").Random((int(chk.seed) * 1000003) ^ 0x0C16)
+    cases += option_sweep_cases(opt_rng, quick)
     kinds4 = ("discrete", "multidiscrete", "multibinary", "box")
     for i in range(100 if quick else 400):                    # the actor directly
         spec = random_spec(rng, big=True, kinds=(kinds4[i % 4],)) if i < 8 else random_spec(rng)
@@ -1439,6 +1704,7 @@ def run(chk: Check) -> None:
                 "the logits), Discrete(2..7), MultiDiscrete (10 nvecs incl. size-1 and equal-size components), MultiBinary(1..5), Box(1..5) with "
                 "and without squashing (unit, [-2,2], [0,10] and per-dimension bounds when squashing), action_std_init 0/0.5/1 and log-std overrides -1..0.25 (a different std per dimension), "
                 "every non-empty mask pattern for Discrete(2,3,4), MultiDiscrete([2,3]) and MultiBinary(3) plus random masks, "
+                "squash_output=True and action_std_init 0.05..2.5 also on every non-Box kind (must be inert: compared with the identically seeded case without the option), "
                 "batches of 2-21 seeded observations; distinct = distinct case descriptor; non-trivial = at least one row is "
                 "masked, squashed, multi-component or a stored re-evaluation")
     chk.assumptions = [
@@ -1463,10 +1729,10 @@ def run(chk: Check) -> None:
     for case in cases:
         nd = n_draws if case["suite"] == "actor" else 0
         diffs, problems, tags, _ = eval_case(chk, case, nd)
-        nontrivial = any(t in ("masked-row", "squash-row", "stored-reeval", "kind-multidiscrete", "kind-multibinary", "large-space")
+        nontrivial = any(t in ("masked-row", "squash-row", "stored-reeval", "kind-multidiscrete", "kind-multibinary", "large-space", "inert-option")
                          or t.startswith("history-") for t in tags)
         chk.case(case_key(case), nontrivial=nontrivial,
-                 sample={k: case[k] for k in ("suite", "spec", "specs", "squash", "scale", "log_std", "std_init", "history", "mode", "algo") if k in case},
+                 sample={k: case[k] for k in ("suite", "via", "spec", "specs", "squash", "scale", "log_std", "std_init", "history", "mode", "algo") if k in case},
                  tags=sorted(set(tags)))
         s = per_suite.setdefault(case["suite"], [0, 0])
         s[0] += 1
@@ -1557,6 +1823,15 @@ def known_probes(chk: Check) -> None:
 def note_unsupported(chk: Check) -> None:
     """configurations of the quantifier that the library rejects or that belong to another property: recorded, not judged"""
     try:
+        import inspect
+        from agilerl.networks.distributions import EvolvableDistribution
+        extra = sorted(set(inspect.signature(EvolvableDistribution.__init__).parameters)
+                       - {"self", "action_space", "network", "action_std_init", "squash_output", "device"})
+        if extra:
+            chk.notes.append(f"EvolvableDistribution has constructor options this check does not sweep: {extra}")
+    except Exception as e:
+        chk.notes.append(f"EvolvableDistribution signature probe: {type(e).__name__}")
+    try:
         from agilerl.algorithms import IPPO
         try:
             IPPO(observation_spaces=[obs_space()], action_spaces=[space_of({"kind": "box", "d": 2})], agent_ids=["a_0"],
@@ -1637,6 +1912,31 @@ def selftest(chk: Check) -> None:
     def drop_last(self, distribution, action):
         return orig_mc(self, distribution[:-1], action)
     faults.append(("last MultiDiscrete component dropped from the sum", MC, "log_prob", drop_last, md_cases))
+
+    # 6. / 7. Gaussian-only constructor options reaching a policy without a Gaussian
+    def inert_cases(opts):
+        def mk():
+            return [{"suite": s, "spec": sp, "rows": [[i, None] for i in range(3)], "seed": 41 + j, "scale": 4.0, **opts}
+                    for j, (s, sp) in enumerate([("actor", {"kind": "multidiscrete", "nvec": [3, 2]}),
+                                                 ("ppo", {"kind": "multibinary", "n": 3})])]
+        return mk
+
+    orig_init = D.EvolvableDistribution.__init__
+
+    def unguarded_squash(self, action_space, network, action_std_init=0.0, squash_output=False, device="cpu"):
+        orig_init(self, action_space, network, action_std_init=action_std_init, squash_output=squash_output, device=device)
+        self.squash_output = squash_output
+    faults.append(("squash_output not restricted to Box policies (tanh of categorical / Bernoulli samples)", D.EvolvableDistribution,
+                   "__init__", unguarded_squash, inert_cases({"squash": True})))
+
+    def std_init_leaks(self, action_space, network, action_std_init=0.0, squash_output=False, device="cpu"):
+        orig_init(self, action_space, network, action_std_init=action_std_init, squash_output=squash_output, device=device)
+        if not isinstance(action_space, spaces.Box) and action_std_init:
+            with torch.no_grad():                 # self-consistent (sample, log-prob, entropy agree) but not inert
+                for p_ in network.parameters():
+                    p_.mul_(0.5)
+    faults.append(("action_std_init changes a policy that has no log-std (only the twin comparison can see it)", D.EvolvableDistribution,
+                   "__init__", std_init_leaks, inert_cases({"std_init": 1.0})))
 
     for name, owner, attr, repl, mk in faults:
         orig = getattr(owner, attr)
